@@ -3,7 +3,7 @@ CONSTANTS
   BinOpsG = {"or", "and", "==", "|", "<<", "..", "+", "-", "*", "^"}
   UnOpsG = {"-", "not", "#", "~"}
   LeafKindsG = {"call", "vararg", "num", "index"}
-  ContextsG = {"local", "local2", "assign", "return", "return2", "if", "repeat", "arg", "argfirst", "tpos", "tname", "index", "prefix", "genfor"}
+  ContextsG = {"local", "local2", "assign", "return", "return2", "if", "repeat", "arg", "argfirst", "tpos", "tname", "index", "prefix", "prefixl", "prefixm", "prefixi", "genfor"}
   MaxDev = 2
   MaxPar = 2
   Shapes = {"bb_l", "bb_r", "bu_l", "bu_r", "ub", "uu", "b", "u", "l"}
